@@ -474,6 +474,19 @@ func checkC15(c OutCase) h.Outcome {
 		o.Violation = h.V("signature-presence", "%d Signature children, signed=%v", nsig, c.Signed)
 		return o
 	}
+	if c.Signed {
+		// schema order: ds:Signature directly after saml:Issuer
+		if all := root.ChildElements(); len(all) < 2 || all[0].Tag != "Issuer" || all[1].Tag != "Signature" {
+			o.Violation = h.V("schema-order/signature", "children %v: the Signature must directly follow the Issuer", func() []string {
+				var n []string
+				for _, e := range all {
+					n = append(n, e.Tag)
+				}
+				return n
+			}())
+			return o
+		}
+	}
 	got := attrMap(root)
 	id := got["ID"]
 	delete(got, "ID")
